@@ -277,6 +277,19 @@ def algebra_samples(rng, n, maxdepth):
         else:
             a = (a_n, rng.randrange(2 ** a_n), rng.randrange(2 ** a_n))
         cases.append(((d, x, y), a))
+    # directed: deeper positions exactly on / next to the edges of the shallower tile's block
+    for _ in range(n // 2):
+        a_n = rng.randint(0, maxdepth - 1)
+        dn = rng.randint(1, maxdepth - a_n)
+        ax, ay = rng.randrange(2 ** a_n), rng.randrange(2 ** a_n)
+        size = 2 ** dn
+        lim = 2 ** (a_n + dn)
+
+        def edge(a0):
+            return rng.choice([a0 * size - 1, a0 * size, (a0 + 1) * size - 1, (a0 + 1) * size, a0 * size + rng.randrange(size)])
+        x, y = edge(ax), edge(ay)
+        if 0 <= x < lim and 0 <= y < lim:
+            cases.append(((a_n + dn, x, y), (a_n, ax, ay)))
     return cases
 
 
